@@ -125,14 +125,14 @@ def impl(case):
     if case["op"] == "threads":
         return impl_threads(case)
     from sched import thr_tramp
-
+    import reactivex.scheduler  # noqa  (imports must not happen under the alarm)
     import signal
 
     def on_alarm(signum, frame):
-        raise TimeoutError("single-thread trampoline run exceeded 20 s")
+        raise TimeoutError("single-thread trampoline run exceeded 60 s")
 
     old = signal.signal(signal.SIGALRM, on_alarm)
-    signal.alarm(20)
+    signal.alarm(60)
     try:
         return thr_tramp.run_single(case)
     except TimeoutError:
@@ -167,7 +167,7 @@ def oracle(case, out):
     if case["op"] == "threads":
         return out.get("oracle")
     if out.get("hang"):
-        return "the scheduling call did not return within 20 s (livelock in the drain loop)"
+        return "the scheduling call did not return (event budget / 60 s) (livelock in the drain loop)"
     return thr_tramp.oracle_events(out["events"]) or thr_tramp.all_run(out["events"]) or (None if out["idle"] and out["queue"] == 0 else "trampoline not idle/empty after the run")
 
 
@@ -304,10 +304,14 @@ def thread_configs(rng, tier):
         ("ct-singleton", {"kind": "cts", "progs": [[["sched", 1, [["sched", 2, []]]]], [["sched", 11, [["sched", 12, []], ["cancel", 12]]]]]}, 1 if q else 2),
     ]
     # one generated untimed pair per run
-    g = _Gen(rng, False, base=1)
-    pa = _untimed(g.body(0, [], 0))[:2]
-    g2 = _Gen(rng, False, base=100)
-    pb = _untimed(g2.body(0, [], 0))[:2]
+    def small(base):
+        for _ in range(50):
+            p = _untimed(_Gen(rng, False, base=base).body(0, [], 0))[:2]
+            if 2 <= _size(p) <= 5 and _has(p, ("sched",)):
+                return p
+        return [["sched", base, [["sched", base + 1, []]]]]
+
+    pa, pb = small(1), small(100)
     cfgs.append(("shared-generated", {"kind": "shared", "progs": [pa, pb]}, 1))
     cfgs.append(("ct-generated", {"kind": "cts", "progs": [pa, pb]}, 1))
     return cfgs
